@@ -974,6 +974,15 @@ func genInsert(r *Rng, sc *ATSchema, taken map[string]bool, o ATGenOpts) *ATStmt
 				es = append(es, &ATExpr{K: 'l', Val: v})
 			}
 		}
+		if useArgs && r.Chance(8) {
+			// a placeholder inside a function call that gives it back, in a column before the key or after it
+			for k := range sc.Cols {
+				if !sc.isPK(k) && es[k].K == 'a' && r.Bool() {
+					es[k].Wrap = true
+					break
+				}
+			}
+		}
 		if o.AllowFindings && useArgs && r.Chance(12) {
 			// the text '?' as a LITERAL among placeholders: the executor takes it for a placeholder (known finding;
 			// a unit test pins exactly that reading of a "?" value)
